@@ -197,7 +197,15 @@ fn stream_all(data: StreamingSoundData<FromFileError>, rate: u32, max: usize, se
 			}
 		}
 		// the decoder keeps ahead: wait until it has filled its ring, ended, or reported an error
-		streamctl::wait_quiescent(&[(id, std::sync::Arc::new(crate::probes::DecoderLog::default()))], Duration::from_secs(5));
+		let before = streamctl::state(id);
+		if !streamctl::wait_quiescent(&[(id, std::sync::Arc::new(crate::probes::DecoderLog::default()))], Duration::from_secs(20)) {
+			let after = streamctl::state(id);
+			if after.loops == before.loops && after.pushed == before.pushed {
+				// the decoder thread is stuck inside one step: it neither delivers frames, nor fails, nor ends
+				streamctl::abandon_all();
+				return Err(Failure::new("returns-promptly", "decoder-step-never-returns", format!("the decoder thread has been inside one decoding step for 20 s after delivering {} frames: no frame, no error, no end of stream", after.pushed)));
+			}
+		}
 		streamctl::set_callback_active(true);
 		let mut buf = vec![Frame::ZERO; chunk];
 		sound.on_start_processing();
@@ -303,7 +311,7 @@ impl Property for C18 {
 		tier.pick(8_000, 200_000)
 	}
 	fn case_time_limit_s(&self) -> u64 {
-		30
+		120
 	}
 	fn level(&self) -> &'static str {
 		"fault_enumeration"
